@@ -231,6 +231,11 @@ def run_case(prog, params):
                                 'example_result': repr(model_bytes(mdl, got)), 'path_condition_size': len(ex.pc)})
         return out
     fs, inc = explore(prog, h, res.stats)
+    if params.get('panic_only'):
+        # used by C13: of everything the path kernels can do wrong, only panics are that property's subject
+        fs = [f for f in fs if 'panic' in f.key]
+        for f in fs:
+            f.prop = params.get('prop', 'C13')
     # engine-predicted outputs for replay: execute the concrete script in the engine
     for f in fs:
         concretize_expected(prog, f)
